@@ -174,6 +174,99 @@ Proof.
       right. lia.
 Qed.
 
+(* ---------- points of the CLOSED grid range (lowest line included) when the index is clamped ---------- *)
+
+Definition inside_c (g : list R) (x : R) : Prop := (2 <= glen g)%Z /\ gn g 0 <= x <= gn g (glen g - 1).
+
+(* admissible coordinate: strictly above the lowest line (any clamp), or anywhere in the closed range when the
+   index is clamped at 0 (the repaired code; the antimeridian split inserts points exactly ON the lowest line) *)
+Definition okx (clamp : bool) (g : list R) (x : R) : Prop := inside g x \/ (clamp = true /\ inside_c g x).
+
+Lemma okx_closed clamp g x : okx clamp g x -> (2 <= glen g)%Z /\ gn g 0 <= x <= gn g (glen g - 1).
+Proof.
+  intros [H|[_ H]]; [|exact H]. split; [exact (inside_len g x H)|]. destruct H. lra.
+Qed.
+
+Lemma incr_nth_lt g i j : incr g -> (0 <= i < j)%Z -> (j < glen g)%Z -> gn g i < gn g j.
+Proof.
+  intros Hg. revert i j. induction Hg as [|a r Hs IH Hall]; intros i j Hij Hj; [unfold glen in Hj; simpl in Hj; lia|].
+  rewrite glen_cons in Hj.
+  destruct (Z.eq_dec i 0) as [->|Hi].
+  - rewrite gn_0. rewrite gn_cons by lia. rewrite Forall_forall in Hall.
+    apply Hall. unfold gn. apply nth_In. unfold glen in Hj. lia.
+  - rewrite !gn_cons by lia. apply IH; lia.
+Qed.
+
+Lemma cell_spec_gen clamp g x :
+  incr g -> okx clamp g x ->
+  let c := @cell_index RNum clamp g x in
+  (0 <= c)%Z /\ (c + 1 < glen g)%Z /\ gn g c <= x <= gn g (c + 1) /\
+  (gn g c < x \/ (c = 0%Z /\ x = gn g 0)) /\ c = Z.max (ss g x - 1) 0.
+Proof.
+  intros Hg [Hin|[Hc [Hl [H0 H1]]]] c.
+  - destruct (cell_spec clamp g x Hg Hin) as [Ec [c0 [c1 [cl cu]]]]. fold c in Ec, c0, c1, cl, cu.
+    repeat split; try lia; try lra; try (left; exact cl).
+  - subst clamp. destruct (Rle_lt_or_eq_dec _ _ H0) as [Hlt|Heq].
+    + destruct (cell_spec true g x Hg (conj Hlt H1)) as [Ec [c0 [c1 [cl cu]]]]. fold c in Ec, c0, c1, cl, cu.
+      repeat split; try lia; try lra; try (left; exact cl).
+    + assert (E : ss g x = 0%Z).
+      { pose proof (ss_range g x). destruct (Z.eq_dec (ss g x) 0) as [e|n]; [exact e|].
+        assert (gn g 0 < x) by (apply ss_below; lia). lra. }
+      assert (Ec : c = 0%Z) by (subst c; unfold cell_index; rewrite E; reflexivity).
+      rewrite Ec. split; [lia|]. split; [lia|]. split; [split; [lra|]|split].
+      * rewrite <- Heq. apply incr_nth_le; [exact Hg|lia|lia].
+      * right. split; [reflexivity|symmetry; exact Heq].
+      * rewrite E. reflexivity.
+Qed.
+
+Lemma crossed_clamped i a b :
+  (0 <= a)%Z -> (0 <= b)%Z ->
+  In i (crossed (Z.max (a - 1) 0) (Z.max (b - 1) 0 - Z.max (a - 1) 0))
+  <-> ((1 <= i)%Z /\ ((a <= i < b)%Z \/ (b <= i < a)%Z)).
+Proof. intros Ha Hb. rewrite in_crossed. lia. Qed.
+
+(* exactly the grid lines in [min, max) above the lowest line are met *)
+Lemma lines_char_gen clamp g x0 x1 y :
+  incr g -> okx clamp g x0 -> okx clamp g x1 ->
+  let s := @cell_index RNum clamp g x0 in
+  let e := @cell_index RNum clamp g x1 in
+  In y (map (@py_nth RNum g) (crossed s (e - s)))
+  <-> (In y g /\ Rmin x0 x1 <= y < Rmax x0 x1 /\ gn g 0 < y).
+Proof.
+  intros Hg I0 I1 s e.
+  destruct (cell_spec_gen clamp g x0 Hg I0) as [_ [_ [_ [_ Es]]]].
+  destruct (cell_spec_gen clamp g x1 Hg I1) as [_ [_ [_ [_ Ee]]]].
+  fold s in Es. fold e in Ee. rewrite Es, Ee.
+  pose proof (ss_range g x0) as R0. pose proof (ss_range g x1) as R1.
+  destruct (okx_closed _ _ _ I0) as [Hl _].
+  split.
+  - intros H. apply in_map_iff in H. destruct H as [i [<- Hi]].
+    apply crossed_clamped in Hi; [|lia|lia]. destruct Hi as [Hi1 Hi].
+    assert (Hr : (0 <= i < glen g)%Z) by lia.
+    rewrite py_nth_gn by exact Hr. split; [apply gn_in; exact Hr|]. split.
+    + destruct Hi as [Hi|Hi].
+      * assert (A : gn g i < x1) by (apply (ss_key g x1 i Hg Hr); lia).
+        assert (B : x0 <= gn g i) by (apply ss_above; [exact Hg|lia]).
+        rewrite Rmin_left, Rmax_right by lra. lra.
+      * assert (A : gn g i < x0) by (apply (ss_key g x0 i Hg Hr); lia).
+        assert (B : x1 <= gn g i) by (apply ss_above; [exact Hg|lia]).
+        rewrite Rmin_right, Rmax_left by lra. lra.
+    + apply incr_nth_lt; [exact Hg|lia|lia].
+  - intros [Hy [[Hlo Hhi] Hg0]]. destruct (in_gn g y Hy) as [i [Hr <-]].
+    apply in_map_iff. exists i. split; [apply py_nth_gn; exact Hr|].
+    apply crossed_clamped; [lia|lia|]. split.
+    + destruct (Z.eq_dec i 0) as [->|n]; [lra|lia].
+    + destruct (Rle_dec x0 x1) as [L|L].
+      * rewrite Rmin_left in Hlo by exact L. rewrite Rmax_right in Hhi by exact L.
+        assert (A : (i < ss g x1)%Z) by (apply (ss_key g x1 i Hg Hr); exact Hhi).
+        assert (B : ~ (i < ss g x0)%Z) by (intros C; apply (ss_key g x0 i Hg Hr) in C; lra).
+        left. lia.
+      * rewrite Rmin_right in Hlo by lra. rewrite Rmax_left in Hhi by lra.
+        assert (A : (i < ss g x0)%Z) by (apply (ss_key g x0 i Hg Hr); exact Hhi).
+        assert (B : ~ (i < ss g x1)%Z) by (intros C; apply (ss_key g x1 i Hg Hr) in C; lra).
+        right. lia.
+Qed.
+
 (* ---------- closed-cell containment ---------- *)
 
 Definition in_cell (g : list R) (c : Z) (x : R) : Prop :=
@@ -182,22 +275,24 @@ Definition in_cell (g : list R) (c : Z) (x : R) : Prop :=
 (* core step: a pair (u, w) of neighbouring chain coordinates, a witness m between them whose cell is c *)
 Lemma pair_in_cell g c u w m :
   incr g -> (0 <= c)%Z -> (c + 1 < glen g)%Z ->
-  gn g c < m <= gn g (c + 1) ->
+  gn g c <= m <= gn g (c + 1) ->
+  (gn g c < m \/ gn g c <= Rmin u w) ->
   Rmin u w <= m <= Rmax u w ->
   (forall y, In y g -> Rmin u w < y < Rmax u w -> False) ->
-  (m = Rmin u w -> Rmin u w < Rmax u w -> ~ In (Rmin u w) g) ->
+  (m = Rmin u w -> Rmin u w < Rmax u w -> gn g (c + 1) = Rmin u w -> False) ->
   in_cell g c u /\ in_cell g c w.
 Proof.
-  intros Hg Hc0 Hc1 [Hm0 Hm1] [Hlo Hhi] NG NB.
+  intros Hg Hc0 Hc1 [Hm0 Hm1] Hlow [Hlo Hhi] NG NB.
   assert (I0 : In (gn g c) g) by (apply gn_in; lia).
   assert (I1 : In (gn g (c + 1)) g) by (apply gn_in; lia).
   assert (A : gn g c <= Rmin u w).
-  { destruct (Rle_dec (gn g c) (Rmin u w)) as [L|L]; [exact L|]. exfalso. apply (NG _ I0). lra. }
+  { destruct Hlow as [Hlt|Hle]; [|exact Hle].
+    destruct (Rle_dec (gn g c) (Rmin u w)) as [L|L]; [exact L|]. exfalso. apply (NG _ I0). lra. }
   assert (B : Rmax u w <= gn g (c + 1)).
   { destruct (Rle_dec (Rmax u w) (gn g (c + 1))) as [L|L]; [exact L|]. exfalso.
     destruct (Rlt_dec (Rmin u w) (gn g (c + 1))) as [L2|L2]; [apply (NG _ I1); lra|].
     assert (E : m = Rmin u w) by lra.
-    apply (NB E); [lra|]. replace (Rmin u w) with (gn g (c + 1)) by lra. exact I1. }
+    apply (NB E); lra. }
   pose proof (Rmin_l u w). pose proof (Rmin_r u w). pose proof (Rmax_l u w). pose proof (Rmax_r u w).
   unfold in_cell. repeat split; try lia; lra.
 Qed.
@@ -242,21 +337,44 @@ Qed.
 Section OneD.
   Variables (clamp : bool) (g : list R) (x0 x1 : R) (I : list R).
   Hypothesis Hg : incr g.
-  Hypothesis H0 : inside g x0.
-  Hypothesis H1 : inside g x1.
+  Hypothesis H0 : okx clamp g x0.
+  Hypothesis H1 : okx clamp g x1.
   Hypothesis Hmono : mono (x0 :: I ++ [x1]).
-  (* every grid line in [min, max) is one of the intersection coordinates *)
-  Hypothesis Hcomplete : forall y, In y g -> Rmin x0 x1 <= y < Rmax x0 x1 -> In y I.
+  (* every grid line in [min, max), other than the lowest line, is one of the intersection coordinates *)
+  Hypothesis Hcomplete : forall y, In y g -> Rmin x0 x1 <= y < Rmax x0 x1 -> gn g 0 < y -> In y I.
 
   Let C := x0 :: I ++ [x1].
 
-  Lemma chain_inside z : In z C -> inside g z.
+  Lemma chain_closed z : In z C -> gn g 0 <= z <= gn g (glen g - 1).
   Proof.
     intros Hz. pose proof (mono_between I x0 x1 z Hmono Hz) as [A B].
-    destruct H0 as [a0 b0], H1 as [a1 b1]. unfold inside.
+    destruct (okx_closed _ _ _ H0) as [_ [a0 b0]]. destruct (okx_closed _ _ _ H1) as [_ [a1 b1]].
     destruct (Rle_dec x0 x1) as [L|L].
     - rewrite Rmin_left in A by exact L. rewrite Rmax_right in B by exact L. lra.
     - rewrite Rmin_right in A by lra. rewrite Rmax_left in B by lra. lra.
+  Qed.
+
+  (* a value between two chain points is admissible *)
+  Lemma between_ok u w m : In u C -> In w C -> Rmin u w <= m <= Rmax u w -> okx clamp g m.
+  Proof.
+    intros Hu Hw [Hlo Hhi].
+    pose proof (mono_between I x0 x1 u Hmono Hu) as [Au Bu].
+    pose proof (mono_between I x0 x1 w Hmono Hw) as [Aw Bw].
+    assert (Lo : Rmin x0 x1 <= m) by (apply Rle_trans with (Rmin u w); [apply Rmin_glb; assumption|exact Hlo]).
+    assert (Hi : m <= Rmax x0 x1) by (apply Rle_trans with (Rmax u w); [exact Hhi|apply Rmax_lub; assumption]).
+    destruct H0 as [[a0 b0]|[Ec0 [L0 [a0 b0]]]]; destruct H1 as [[a1 b1]|[Ec1 [L1 [a1 b1]]]].
+    - left. unfold inside. destruct (Rle_dec x0 x1) as [L|L].
+      + rewrite Rmin_left in Lo by exact L. rewrite Rmax_right in Hi by exact L. lra.
+      + rewrite Rmin_right in Lo by lra. rewrite Rmax_left in Hi by lra. lra.
+    - right. split; [exact Ec1|]. split; [exact L1|]. destruct (Rle_dec x0 x1) as [L|L].
+      + rewrite Rmin_left in Lo by exact L. rewrite Rmax_right in Hi by exact L. lra.
+      + rewrite Rmin_right in Lo by lra. rewrite Rmax_left in Hi by lra. lra.
+    - right. split; [exact Ec0|]. split; [exact L0|]. destruct (Rle_dec x0 x1) as [L|L].
+      + rewrite Rmin_left in Lo by exact L. rewrite Rmax_right in Hi by exact L. lra.
+      + rewrite Rmin_right in Lo by lra. rewrite Rmax_left in Hi by lra. lra.
+    - right. split; [exact Ec0|]. split; [exact L0|]. destruct (Rle_dec x0 x1) as [L|L].
+      + rewrite Rmin_left in Lo by exact L. rewrite Rmax_right in Hi by exact L. lra.
+      + rewrite Rmin_right in Lo by lra. rewrite Rmax_left in Hi by lra. lra.
   Qed.
 
   (* nothing of the grid strictly between two neighbours of the chain *)
@@ -270,32 +388,48 @@ Section OneD.
     pose proof (mono_between I x0 x1 w Hmono Iw) as [Aw Bw].
     assert (Rmin x0 x1 <= Rmin u w) by (apply Rmin_glb; assumption).
     assert (Rmax u w <= Rmax x0 x1) by (apply Rmax_lub; assumption).
-    assert (HI : In y I) by (apply Hcomplete; [exact Hy|lra]).
+    pose proof (chain_closed u Iu) as [cu _]. pose proof (chain_closed w Iw) as [cw _].
+    assert (gn g 0 <= Rmin u w) by (apply Rmin_glb; assumption).
+    assert (HI : In y I) by (apply Hcomplete; [exact Hy|lra|lra]).
     apply (mono_no_between C P Q u w y Hmono E); [|exact Hb].
     unfold C. right. apply in_or_app. left. exact HI.
+  Qed.
+
+  (* the admissible lower-edge alternative of pair_in_cell for a chain pair *)
+  Lemma low_alt c m u w :
+    In u C -> In w C -> (gn g c < m \/ (c = 0%Z /\ m = gn g 0)) -> (gn g c < m \/ gn g c <= Rmin u w).
+  Proof.
+    intros Hu Hw [L|[-> _]]; [left; exact L|right].
+    pose proof (chain_closed u Hu) as [cu _]. pose proof (chain_closed w Hw) as [cw _].
+    apply Rmin_glb; assumption.
   Qed.
 
   Lemma first_piece w rest :
     I ++ [x1] = w :: rest -> both_in g (@cell_index RNum clamp g x0) (x0, w).
   Proof.
-    intros E. destruct (cell_spec clamp g x0 Hg H0) as [_ [c0 [c1 cm]]].
+    intros E. destruct (cell_spec_gen clamp g x0 Hg H0) as [c0 [c1 [cm [calt _]]]].
     assert (EC : C = [] ++ x0 :: w :: rest) by (unfold C; rewrite E; reflexivity).
-    apply (pair_in_cell g _ x0 w x0 Hg c0 c1 cm).
+    assert (I0 : In x0 C) by (left; reflexivity).
+    assert (Iw : In w C) by (rewrite EC; right; left; reflexivity).
+    apply (pair_in_cell g _ x0 w x0 Hg c0 c1 cm (low_alt _ _ _ _ I0 Iw calt)).
     - split; [apply Rmin_l|apply Rmax_l].
     - intros y Hy Hb. exact (chain_gap_free [] rest x0 w y EC Hy Hb).
-    - intros Em Hlt Hin.
-      (* x0 = min < w: the chain ascends; x0 is a grid line in [x0, x1) hence in I, so w = head of I <= x0 *)
+    - intros Em Hlt Eg.
+      (* x0 = min < w: the chain ascends; x0 = g[c+1] is a grid line above the lowest, in [x0, x1), hence in I,
+         so w = head of I <= x0 *)
       assert (Hx : x0 < w).
       { destruct (Rle_dec x0 w) as [L|L]; [rewrite Rmin_left, Rmax_right in Hlt by exact L; exact Hlt|].
         rewrite Rmin_right in Em by lra. lra. }
-      rewrite Rmin_left in Hin by lra.
-      assert (Iw : In w C) by (rewrite EC; right; left; reflexivity).
+      rewrite Rmin_left in Eg by lra.
+      assert (Hin : In x0 g) by (rewrite <- Eg; apply gn_in; lia).
+      assert (Hlow : gn g 0 < x0) by (rewrite <- Eg; apply incr_nth_lt; [exact Hg|lia|lia]).
       pose proof (mono_between I x0 x1 w Hmono Iw) as [Aw Bw].
       assert (L01 : x0 < x1).
       { destruct (Rle_dec x0 x1) as [L|L]; [rewrite Rmax_right in Bw by exact L; lra|].
         rewrite Rmax_left in Bw by lra. lra. }
       assert (HI : In x0 I).
-      { apply Hcomplete; [exact Hin|]. rewrite Rmin_left, Rmax_right by lra. lra. }
+      { apply Hcomplete; [exact Hin| |exact Hlow]. rewrite Rmin_left, Rmax_right by lra. lra. }
+      clear I0 Iw.
       destruct I as [|a I'] eqn:EI; [destruct HI|].
       simpl in E. injection E as Ea _. subst a.
       destruct Hmono as [S|S]; unfold C in *.
@@ -308,27 +442,30 @@ Section OneD.
   Lemma last_piece P u :
     x0 :: I = P ++ [u] -> both_in g (@cell_index RNum clamp g x1) (u, x1).
   Proof.
-    intros E. destruct (cell_spec clamp g x1 Hg H1) as [_ [c0 [c1 cm]]].
+    intros E. destruct (cell_spec_gen clamp g x1 Hg H1) as [c0 [c1 [cm [calt _]]]].
     assert (EC : C = P ++ u :: x1 :: []).
     { unfold C. change (x0 :: I ++ [x1]) with ((x0 :: I) ++ [x1]). rewrite E, <- app_assoc. reflexivity. }
-    apply (pair_in_cell g _ u x1 x1 Hg c0 c1 cm).
+    assert (Iu : In u C) by (rewrite EC; apply in_or_app; right; left; reflexivity).
+    assert (I1 : In x1 C) by (rewrite EC; apply in_or_app; right; right; left; reflexivity).
+    apply (pair_in_cell g _ u x1 x1 Hg c0 c1 cm (low_alt _ _ _ _ Iu I1 calt)).
     - split; [apply Rmin_r|apply Rmax_r].
     - intros y Hy Hb. exact (chain_gap_free P [] u x1 y EC Hy Hb).
-    - intros Em Hlt Hin.
-      (* x1 = min < u: the chain descends; x1 is a grid line in [x1, x0) hence in I, so u = last of I <= x1 *)
+    - intros Em Hlt Eg.
+      (* x1 = min < u: the chain descends; x1 = g[c+1] is a grid line above the lowest, in [x1, x0), hence in I,
+         so u = last of I <= x1 *)
       assert (Hx : x1 < u).
       { destruct (Rle_dec u x1) as [L|L]; [rewrite Rmin_left in Em by exact L; rewrite Rmin_left, Rmax_right in Hlt by exact L; lra|lra]. }
-      rewrite Rmin_right in Hin by lra.
-      assert (Iu : In u C) by (rewrite EC; apply in_or_app; right; left; reflexivity).
+      rewrite Rmin_right in Eg by lra.
+      assert (Hin : In x1 g) by (rewrite <- Eg; apply gn_in; lia).
+      assert (Hlow : gn g 0 < x1) by (rewrite <- Eg; apply incr_nth_lt; [exact Hg|lia|lia]).
       pose proof (mono_between I x0 x1 u Hmono Iu) as [Au Bu].
       assert (L01 : x1 < x0).
       { destruct (Rle_dec x0 x1) as [L|L]; [rewrite Rmax_right in Bu by exact L; lra|lra]. }
       assert (HI : In x1 I).
-      { apply Hcomplete; [exact Hin|]. rewrite Rmin_right, Rmax_left by lra. lra. }
+      { apply Hcomplete; [exact Hin| |exact Hlow]. rewrite Rmin_right, Rmax_left by lra. lra. }
       assert (HP : In x1 (P ++ [u])) by (rewrite <- E; right; exact HI).
       destruct Hmono as [S|S]; unfold C in *.
-      + (* ascending chain contradicts x1 < x0 *)
-        inversion S as [|? ? _ F]; subst. rewrite Forall_forall in F.
+      + inversion S as [|? ? _ F]; subst. rewrite Forall_forall in F.
         assert (x0 <= x1) by (apply F, in_or_app; right; left; reflexivity). lra.
       + change (x0 :: I ++ [x1]) with ((x0 :: I) ++ [x1]) in S. rewrite E in S.
         rewrite <- app_assoc in S. destruct (SS_app_inv _ _ _ S) as [_ [S2 Cx]].
@@ -344,12 +481,12 @@ Section OneD.
     { unfold C. rewrite E. simpl. rewrite <- app_assoc. reflexivity. }
     assert (Iu : In u C) by (rewrite EC; apply in_or_app; right; left; reflexivity).
     assert (Iw : In w C) by (rewrite EC; apply in_or_app; right; right; left; reflexivity).
-    pose proof (chain_inside u Iu) as [u0 u1]. pose proof (chain_inside w Iw) as [w0 w1].
-    assert (Hm : inside g (mid1 (u, w))) by (unfold inside, mid1; cbn [fst snd]; lra).
-    destruct (cell_spec clamp g _ Hg Hm) as [_ [c0 [c1 cm]]].
-    apply (pair_in_cell g _ u w (mid1 (u, w)) Hg c0 c1 cm).
-    - unfold mid1. cbn [fst snd]. pose proof (Rmin_l u w). pose proof (Rmin_r u w).
-      pose proof (Rmax_l u w). pose proof (Rmax_r u w). lra.
+    assert (Hmid : Rmin u w <= mid1 (u, w) <= Rmax u w).
+    { unfold mid1. cbn [fst snd]. pose proof (Rmin_l u w). pose proof (Rmin_r u w).
+      pose proof (Rmax_l u w). pose proof (Rmax_r u w). lra. }
+    pose proof (between_ok u w _ Iu Iw Hmid) as Hm.
+    destruct (cell_spec_gen clamp g _ Hg Hm) as [c0 [c1 [cm [calt _]]]].
+    apply (pair_in_cell g _ u w (mid1 (u, w)) Hg c0 c1 cm (low_alt _ _ _ _ Iu Iw calt) Hmid).
     - intros y Hy Hb. exact (chain_gap_free (x0 :: P) (Q ++ [x1]) u w y EC Hy Hb).
     - intros Em Hlt _. unfold mid1 in Em. cbn [fst snd] in Em.
       destruct (Rle_dec u w) as [L|L].
